@@ -861,7 +861,7 @@ func main() {
 	for _, h := range corpus() {
 		emit(h)
 	}
-	n := f.Count(300, 1500)
+	n := f.Count(300, 1000)
 	for i := 0; i < n; i++ {
 		r := gen.Fork(f.Seed, i)
 		switch {
